@@ -291,8 +291,8 @@ func (vr *variableResolver) resolve(ctx *ExecutionContext) (*Value, error) {
 			}
 
 			if !isFunc {
-				// If current a pointer, resolve it
-				if current.Kind() == reflect.Ptr {
+				// If current a pointer (to a pointer, to an interface holding one ...), resolve it
+				for current.Kind() == reflect.Ptr || current.Kind() == reflect.Interface {
 					current = current.Elem()
 					if !current.IsValid() {
 						// Value is not valid (anymore)
